@@ -57,7 +57,8 @@ def run(ctx: Ctx) -> None:
     # R3
     g = CFG(ra)
     bind = g.where(has_stmt(lambda n: isinstance(n, ast.Call) and call_name(n) == "self.app"))
-    ctx.need(len(bind) == 1, f"{w}: application call node not found")
+    ctx.need(len(bind) >= 1, f"{w}: application call node not found")
+    bind = bind[-1:]
     _cl = has_call("response_body.close")
     closep = lambda n: _cl(n) or (n.kind == "test" and norm(n.ast.test) == "hasattr(response_body, 'close')")
     # start after the binding statement completed normally
